@@ -117,11 +117,8 @@ LawTopGeAcc == (Out /\ SingleLabel(c.task)) =>
         IN  SetMin(acc) <= SetMin(top) /\ SetMax(acc) <= SetMax(top)
 \* the term's own definition: on balanced truths balanced accuracy is accuracy
 LawBalanced == (Out /\ SingleLabel(c.task)) =>
-        LET n == Len(c.items)
-            cnt(k) == Cardinality({i \in 1..n : Truth(c.items[i], c.C) = k})
-            present == {Truth(c.items[i], c.C) : i \in 1..n}
-        IN  (\A k1, k2 \in present : cnt(k1) = cnt(k2)) =>
-                \A p \in Preds(c.items, c.C, c.u) : REq(BaccOf(c.items, c.C, p), AccOf(c.items, c.C, p))
+        LET e == EffSeq(c.items) IN
+        Balanced(e, c.C) => \A p \in Preds(e, c.C, c.u) : REq(BaccOf(e, c.C, p), AccOf(e, c.C, p))
 \* 'none' is an extra class for the accuracy family: same values as the (C+1)-class problem with the left-over
 \* mass as an explicit score ...
 Lift(it) == [t |-> Truth(it, c.C), y |-> <<>>, s |-> Append(it.s, c.u - SumSeq(it.s))]
